@@ -321,3 +321,10 @@ PROPS["C06"]["structural"] = [st("ngram_vectorizer.py", "NgramVectorizer.__add__
 
 _NGK = "vectorizers/ngram_token_cooccurence_vectorizer.py::numba_build_skip_grams"
 PROPS["C10"]["functions"] += [_NGK]
+
+PROPS["C13"]["structural"] += [
+    st("linear_optimal_transport.py", f, "calls", callees=["mkdtemp", "remove", "rmdir"], why="the scratch memmap file and its directory are removed on the success path")
+    for f in ("lot_vectors_sparse", "lot_vectors_dense", "lot_vectors_dense_generator", "sinkhorn_vectors_sparse")
+] + [st("ngram_vectorizer.py", "NgramVectorizer.__add__", "no-alias-mutation")]
+
+PROPS["C10"]["functions"] += ["vectorizers/timed_token_cooccurrence_vectorizer.py::numba_build_skip_grams"]
